@@ -24,7 +24,7 @@ import hypothesis
 from hypothesis import strategies as st, settings, HealthCheck
 from hypothesis.stateful import RuleBasedStateMachine, rule, invariant, initialize, precondition, run_state_machine_as_test
 
-from vlib.runner import Violation, hyp_run, shard_seed, crash_sig
+from vlib.runner import Violation, hyp_run, shard_seed, crash_sig, cpu_guarded
 from vlib import cli
 from ref import macroref
 from ref.macroref import OutOfDomain
@@ -458,7 +458,7 @@ class History(RuleBasedStateMachine):
             return False
         case = {'kind': 'hist', 'mode': self.mode, 'items': self.items + ([item] if keep else []), 'probe': None if keep else [item]}
         try:
-            built = hist_oracle(case, self.rec)
+            built = cpu_guarded(lambda c: hist_oracle(c, self.rec), case, 120)
         except Violation as v:
             if v.sig in self.excluded or (self.rec is not None and self.rec.is_known(v)):
                 self.dead = True
@@ -510,7 +510,7 @@ def ddmin_items(case, sig, budget_s=30.0):
     def fails(items):
         c = dict(case, items=items)
         try:
-            hist_oracle(c)
+            cpu_guarded(hist_oracle, c, 120)
         except Violation as v:
             return v.sig == sig
         return False
